@@ -924,10 +924,14 @@ result_t ValueListDataField::writeSymbols(size_t offset, istringstream* input,
   const char* str = inputStr.c_str();
   char* strEnd = nullptr;  // fall back to raw value in input
   unsigned int value;
-  value = (unsigned int)strtoul(str, &strEnd, 10);
+  unsigned long parsedValue = strtoul(str, &strEnd, 10);
   if (strEnd == nullptr || strEnd == str || (*strEnd != 0 && *strEnd != '.')) {
     return RESULT_ERR_INVALID_NUM;  // invalid value
   }
+  if (parsedValue > UINT32_MAX || inputStr.find('-') != string::npos) {
+    return RESULT_ERR_NOTFOUND;  // value assignment not found
+  }
+  value = (unsigned int)parsedValue;
   if (m_values.find(value) != m_values.end()) {
     return numType->writeRawValue(value, offset, m_length, output, usedLength);
   }
